@@ -16,7 +16,7 @@ EscKeys == {"q\"uote", "back\\slash", "new\nline", "k\té ✓"}
 EscShapes == {<<"I64">>, <<"Str">>, <<"StrCtl">>, <<"Seq", "F64">>, <<"MapKey", "I64", "Str">>, <<"None">>}
 UserAtoms == {"Null", "Bool", "I64", "U64Big", "I128", "U128", "F64", "NaN", "Inf", "Str", "StrCtl",
               "StrUni", "Bytes", "Struct", "EnumUnit", "EnumNewtype", "None", "Err", "ErrChain",
-              "Level", "Reent"}
+              "Level", "Reent", "DispVal", "DbgVal"}
 InnerQuick == {"I64", "U128", "F64", "NaN", "StrUni", "None", "Bytes", "Struct"}
 Inner == IF Tier = "thorough" THEN UserAtoms ELSE InnerQuick
 KeyInner == IF Tier = "thorough" THEN InnerQuick \cup {"Str"} ELSE {"I64", "Str"}
@@ -133,10 +133,15 @@ CarrierSides ==
           THEN {<<<<x, y>>, <<z>>>> : x, y, z \in Core3} \cup {<<<<x>>, <<y, z>>>> : x, y, z \in Core3}
           ELSE {})
 SideOK(sd) == \A i, j \in 1..Len(sd) : i < j => sd[i].key # sd[j].key
+\* what lives in the ambient context is buffered (C19: numbers, booleans, strings, structure
+\* survive; the identity of an error value is not promised): no error values on that side
+AmbientOK(sd) == \A i \in 1..Len(sd) : sd[i].shape \notin {<<"Err">>, <<"ErrChain">>}
 CarrierEvents ==
     {WithCarrier([kind |-> h.kind, extent |-> h.extent, props |-> h.hdr \o sd[1] \o sd[2]], c, Len(h.hdr) + Len(sd[1])) :
         h \in CarrierHdrs, c \in {"and", "ambient"},
         sd \in {x \in CarrierSides : SideOK(x[1]) /\ SideOK(x[2])}}
+    \ {e \in {WithCarrier([kind |-> h.kind, extent |-> h.extent, props |-> h.hdr \o sd[1] \o sd[2]], "ambient", Len(h.hdr) + Len(sd[1])) :
+                  h \in CarrierHdrs, sd \in {x \in CarrierSides : ~AmbientOK(x[2])}} : TRUE}
 
 MC_Events == {WithCarrier(e, "slice", Len(e.props)) : e \in BaseEvents} \cup CarrierEvents
 
